@@ -40,8 +40,8 @@ impl Instant {
         }
     }
     pub fn checked_sub(&self, d: Duration) -> Option<Instant> {
-        // like std on Linux, an Instant can represent times before boot
-        self.0.checked_sub(dur_ns(d)).map(Instant)
+        // like std on Linux (a timespec since boot), an Instant cannot lie before boot
+        self.0.checked_sub(dur_ns(d)).filter(|v| *v >= 0).map(Instant)
     }
     pub fn checked_add(&self, d: Duration) -> Option<Instant> {
         self.0.checked_add(dur_ns(d)).map(Instant)
